@@ -4,7 +4,7 @@ own check (and optionally others) run against it with VERIF_REPO pointing at the
 import json, os, subprocess, sys, glob, shutil, time
 
 V = os.path.dirname(os.path.dirname(os.path.abspath(__file__)))
-extra = {"C01-m1": ["C07"], "C02-m2": ["C17"], "C11-m2": ["C19"], "C16-m1": ["C12"], "C03-m2": ["C12"], "C12-m2": ["C08"]}
+extra = {"C01-m1": ["C07"], "C02-m2": ["C17"], "C11-m2": ["C19"], "C16-m1": ["C12"], "C03-m2": ["C12"], "C12-m2": ["C08"], "C04-m3": ["C13"], "C12-m4": ["C13"]}
 only = sys.argv[1:]
 out = {}
 for d in sorted(glob.glob(os.path.join(V, "seeded", "C*-m*"))):
@@ -35,4 +35,9 @@ for d in sorted(glob.glob(os.path.join(V, "seeded", "C*-m*"))):
     out[name] = res
     json.dump(res, open(os.path.join(d, "detection.json"), "w"), indent=1)
     print(name, {k: (v["exit"], v["violations"]) if isinstance(v, dict) else v for k, v in res.items()}, flush=True)
-json.dump(out, open(os.path.join(V, "selftest", "matrix.json"), "w"), indent=1)
+mp = os.path.join(V, "selftest", "matrix.json")
+if only and os.path.exists(mp):
+    full = json.load(open(mp))
+    full.update(out)
+    out = full
+json.dump(out, open(mp, "w"), indent=1, sort_keys=True)
